@@ -1,11 +1,13 @@
 #!/bin/bash
-# usage: tools/sweep.sh <seed> [tier]   -- run every registered check once, sequentially; summary in /dev/shm/sweep_<seed>_<tier>.log
+# usage: [SKIP='C34 C53'] [ONLY='C01 C02'] [EXTRA=--no-evidence] tools/sweep.sh <seed> [tier]   -- run every registered check once, sequentially; summary in /dev/shm/sweep_<seed>_<tier>.log
 seed=${1:-0}; tier=${2:-quick}
-out=/dev/shm/sweep_${seed}_${tier}.log; : > $out
+out=/dev/shm/sweep_${seed}_${tier}${TAG}.log; : > $out
 cd /verif
 for id in $(python3 -c "import json; print(' '.join(c['property_id'] for c in json.load(open('MANIFEST.json'))['checks']))"); do
+  case " $SKIP " in *" $id "*) continue;; esac
+  if [ -n "$ONLY" ]; then case " $ONLY " in *" $id "*) ;; *) continue;; esac; fi
   t0=$(date +%s)
-  VERIF_SEED=$seed ./check $id --tier $tier > /dev/shm/sweep_out_$id.txt 2>&1; rc=$?
+  VERIF_SEED=$seed ./check $id --tier $tier $EXTRA > /dev/shm/sweep_out_$id.txt 2>&1; rc=$?
   t1=$(date +%s)
   echo "$id rc=$rc wall=$((t1-t0))s known=$(grep -c '^KNOWN-FINDING' /dev/shm/sweep_out_$id.txt) :: $(grep "^$id tier" /dev/shm/sweep_out_$id.txt | tail -1)" >> $out
 done
